@@ -88,10 +88,10 @@ func (g *Gen) kw(s string) string {
 	return strings.ToUpper(s)
 }
 
-var strVals = []string{"", "0", "-1", "1", "10", "007", "+5", "9223372036854775807", "-9223372036854775808",
+var strVals = []string{"", "0", "-1", "1", "10", "007", "+5", "-05", "-00", "-0012", "00", "- 5", "9223372036854775807", "-9223372036854775808",
 	"9223372036854775806", "abc", "hello world", "a", "3", "-0", " 1", "1 ", "12abc", "0x10", "18446744073709551616"}
 
-var hostileVals = []string{"a\r\nb", "\x00\xff\xfe", "\r", "\n", "$5\r\nhello\r\n", "+OK\r\n", "-ERR x\r\n", "\xc3\x28", "caf\xc3\xa9"}
+var hostileVals = []string{"\xe2\x82\xacuro", "\xe6\x97\xa5\xe6\x9c\xac", "a\xf0\x9f\x98\x80b", "a\r\nb", "\x00\xff\xfe", "\r", "\n", "$5\r\nhello\r\n", "+OK\r\n", "-ERR x\r\n", "\xc3\x28", "caf\xc3\xa9"}
 
 func (g *Gen) val() string {
 	if g.hostile && g.chance(0.3) {
@@ -1085,6 +1085,18 @@ func (g *Gen) hcounterBoundary(c int) []Op {
 		}
 	}
 	return []Op{mkOp(c, "DEL", k), mkOp(c, "HSET", k, f, v), mkOp(c, g.kw("hincrby"), k, f, delta), mkOp(c, "HGET", k, f)}
+}
+
+// a stored value that is a number to the eye but not in Redis' canonical form: the counter commands refuse it
+// and leave it as it is
+func (g *Gen) noncanonMacro(c int, hash bool) []Op {
+	k := g.key()
+	v := g.pick("-05", "-00", "-0012", "+5", "05", "-0", " 1", "1 ", "0x10", "1e2", "1_0", "٣", "9223372036854775808", "-9223372036854775809", "")
+	d := g.pick("1", "0", "-1", "9223372036854775807")
+	if hash {
+		return []Op{mkOp(c, "DEL", k), mkOp(c, "HSET", k, "f", v), mkOp(c, g.kw("hincrby"), k, "f", d), mkOp(c, "HGET", k, "f")}
+	}
+	return []Op{mkOp(c, "SET", k, v), mkOp(c, g.kw(g.pick("incrby", "decrby")), k, d), mkOp(c, "GET", k), mkOp(c, g.kw(g.pick("incr", "decr")), k), mkOp(c, "GET", k)}
 }
 
 // binary-rich strings as values for string-typed keys (bitmaps)
